@@ -125,9 +125,15 @@ class ResolveAssociateMapper(LokiIdentityMapper):
         if len(free_symbols) == len(indices):
             # If the provided indices are enough to bind free symbols,
             # we match them in sequence.
+            def _bind(free_range, index):
+                # A full range ``:`` selects all of the associated section, which keeps its bounds
+                if isinstance(index, sym.RangeIndex) and index.lower is None and index.upper is None and index.step is None:
+                    return free_range
+                return index
+
             it = iter(indices)
             return tuple(
-                next(it) if isinstance(e, sym.RangeIndex) else e
+                _bind(e, next(it)) if isinstance(e, sym.RangeIndex) else e
                 for e in expressions
             )
 
